@@ -48,15 +48,15 @@ Theorem C04_index_level_functions :
 Proof. exact (conj kron_mult_spec (conj rotate_psi_index_spec rotate_rho_index_spec)). Qed.
 Print Assumptions C04_index_level_functions.
 
-(* ---- 3. rotate_rho = U rho U^dagger for Hermitian rho (as a function of two basis states, and for
-        every well-shaped explicit array) ---- *)
+(* ---- 3. rotate_rho = U rho U^dagger for EVERY complex matrix, Hermitian or not (as a function of two basis
+        states, and for every well-shaped explicit array).  Before the repair 209e65c of /repo this held for
+        Hermitian matrices only (the code returned the adjoint of the rotated matrix). ---- *)
 Theorem C04_rotate_rho_is_UrhoUdag :
-  (forall user basis (f : bits -> bits -> cxR), hermitian_fun (length basis) f ->
+  (forall user basis (f : bits -> bits -> cxR),
      rotate_rho ROps user basis (rho_mat (length basis) f)
      = rho_mat (length basis) (UrhoUdag_fun (map (lookup ROps user) basis) f)) /\
   (forall user basis (arr : list (list cxR)),
      length arr = (2 ^ length basis)%nat -> Forall (fun row => length row = (2 ^ length basis)%nat) arr ->
-     hermitian_arr arr ->
      rotate_rho ROps user basis arr
      = rho_mat (length basis) (UrhoUdag_fun (map (lookup ROps user) basis) (rho_of_array ROps arr))).
 Proof. exact (conj rotate_rho_is_UrhoUdag rotate_rho_explicit). Qed.
@@ -91,7 +91,6 @@ Print Assumptions C04_rho_probs_fastpath_model.
 
 Theorem C04_rho_probs_fastpath_explicit : forall user basis (arr : list (list cxR)) states,
   length arr = (2 ^ length basis)%nat -> Forall (fun row => length row = (2 ^ length basis)%nat) arr ->
-  hermitian_arr arr ->
   Forall (fun s => length s = length basis) states ->
   rotate_rho_probs ROps user basis (rho_of_array ROps arr) states
   = map (fun s => fst (rho_of_array ROps (rotate_rho ROps user basis arr) s s)) states.
